@@ -34,7 +34,7 @@ ASSUMPTIONS = [
     'login handlers succeed (a failing login is C20\'s fail-fast matter); they return either fresh credentials or the very same ones',
     '(B) bounded liveness: recovery is demanded within the sum of configured delays + 30 s after the probe edit',
 ]
-BUDGET = {'quick': 60, 'thorough': 2500}
+BUDGET = {'quick': 140, 'thorough': 3000}
 TOL = 1e-6
 
 PATH = '/apis/kopf.dev/v1/namespaces/default/kopfexamples/'
@@ -68,7 +68,7 @@ def backoff_list(cfg):
 
 
 # ------------------------------------------------------------------------------------------ (A) generator
-OUTCOMES = ['ok', 500, 502, 503, 504, 403, 429, 429, 404, 409, 422, 400, 401, 'conn', 'disconnected', 'oserror', 'slow']
+OUTCOMES = ['ok', 500, 502, 503, 403, 429, 429, 429, 429, 404, 409, 422, 400, 401, 'conn', 'disconnected', 'oserror', 'slow']
 
 
 @st.composite
